@@ -3,5 +3,7 @@ CONSTANTS
   BITS = 5
   CAP = 0
   ASIS = FALSE
-INVARIANT BlInv
+INVARIANT RangeIsPrefix
+INVARIANT StreeExact
+INVARIANT OnlyLoaded
 CHECK_DEADLOCK FALSE
